@@ -99,6 +99,12 @@ def g10(ctx, F):
     p02.r6(ctx, F, F.fn("chess::Game::push"))
     p04.rule_k7(ctx, F)
     relabel(ctx, before, nv, "C01.G10")
+    # ... and the in-check test of the legality filter looks at the square the mover's king is on: the king cache's setter and
+    # getter agree on the slot of each side (C03.S8)
+    from . import p03
+    before, nv = len(ctx.instances), len(ctx.violations)
+    p03.king_cache_accessors(ctx, F)
+    relabel(ctx, before, nv, "C01.G11")
 
 
 # ---------------------------------------------------------------------------
